@@ -412,4 +412,136 @@ theorem roundPos_interval (ex fr n t : Nat) (e : Int) (hex : ex < 2047) (hfr : f
       have := hP3 hfr0
       exact upper (by omega) (by omega) (by omega)
 
+/-! ## 6. Bit patterns -/
+
+theorem decode_bitsOf (ex fr : Nat) (hex : ex < 2047) (hfr : fr < 2 ^ 52) :
+    decode (bitsOf ex fr) = .fin false (mantOf ex fr) (expOf ex) := by
+  unfold bitsOf
+  rw [decode_ofNat_lt _ (by omega)]
+  have h1 : (ex * 2 ^ 52 + fr) / 2 ^ 52 % 2 ^ 11 = ex := by omega
+  have h2 : (ex * 2 ^ 52 + fr) % 2 ^ 52 = fr := by omega
+  have h3 : ¬ (2 ^ 63 ≤ ex * 2 ^ 52 + fr) := by omega
+  unfold decodeN mantOf expOf
+  rw [h1, h2]
+  simp only [h3, decide_false]
+  rw [if_neg (by omega)]
+  by_cases h0 : ex = 0
+  · simp [h0]
+  · simp [h0]
+
+theorem bitsOf_toNat (ex fr : Nat) (hex : ex < 2047) (hfr : fr < 2 ^ 52) :
+    (bitsOf ex fr).toNat = ex * 2 ^ 52 + fr := by
+  unfold bitsOf; exact UInt64.toNat_ofNat_of_lt' (by show _ < 2 ^ 64; omega)
+
+theorem isFinite_bitsOf (ex fr : Nat) (hex : ex < 2047) (hfr : fr < 2 ^ 52) :
+    isFinite (bitsOf ex fr) = true := by
+  unfold isFinite
+  have h := Numeric.ex_toNat (bitsOf ex fr)
+  rw [bitsOf_toNat ex fr hex hfr] at h
+  have h1 : (ex * 2 ^ 52 + fr) / 2 ^ 52 % 2 ^ 11 = ex := by omega
+  rw [h1] at h
+  simp only [bne_iff_ne, ne_eq]
+  intro hc
+  rw [hc] at h
+  have : (0x7ff : UInt64).toNat = 2047 := by decide
+  omega
+
+/-- every finite non-negative bit pattern is `bitsOf ex fr` -/
+theorem bits_cases (b : UInt64) (hb : b.toNat < 2 ^ 63) (hfin : isFinite b = true) :
+    b = bitsOf (b.toNat / 2 ^ 52) (b.toNat % 2 ^ 52) ∧ b.toNat / 2 ^ 52 < 2047 ∧ b.toNat % 2 ^ 52 < 2 ^ 52 := by
+  refine ⟨?_, ?_, Nat.mod_lt _ (by decide)⟩
+  · unfold bitsOf
+    rw [Nat.div_add_mod']
+    exact (Numeric.ofNat_toNat b).symm
+  · unfold isFinite at hfin
+    have h := Numeric.ex_toNat b
+    have h2 : b.toNat / 2 ^ 52 % 2 ^ 11 = b.toNat / 2 ^ 52 := Nat.mod_eq_of_lt (by omega)
+    rw [h2] at h
+    have : b.toNat / 2 ^ 52 ≠ 2047 := by
+      intro hc
+      rw [hc] at h
+      have : (b >>> 52 &&& 0x7ff) = 0x7ff := UInt64.toNat_inj.mp (by rw [h]; rfl)
+      simp [this] at hfin
+    omega
+
+/-! ## 7. T1: representable values are fixed points -/
+
+/-- `roundPos` returns the float `(ex, fr)` on its own mantissa and exponent. -/
+theorem roundPos_bitsOf (ex fr : Nat) (hex : ex < 2047) (hfr : fr < 2 ^ 52) (hne : mantOf ex fr ≠ 0) :
+    roundPos (mantOf ex fr) (expOf ex) false = some (bitsOf ex fr) := by
+  rw [← roundPos_scale (mantOf ex fr) 2 (expOf ex) hne]
+  apply roundPos_interval ex fr _ 0 _ hex hfr hne
+  · rfl
+  · unfold loNum; split <;> omega
+  · unfold hiNum; omega
+  · intro _; unfold loNum hiNum; split <;> omega
+
+/-- **T1 (converse form)**: for every finite positive binary64 `b = m·2^e`, `roundPos m e false = some b`. -/
+theorem roundPos_decode (b : UInt64) (m : Nat) (e : Int) (h : decode b = .fin false m e) (hm : m ≠ 0) :
+    roundPos m e false = some b := by
+  have hb : b.toNat < 2 ^ 63 := by rw [decode_eq] at h; exact decodeN_fin_false h
+  have hfin : isFinite b = true := by
+    unfold decode at h
+    unfold isFinite
+    by_cases hc : (b >>> 52 &&& 0x7ff) = 0x7ff
+    · rw [hc] at h; simp at h; split at h <;> cases h
+    · simpa using hc
+  obtain ⟨hbe, hex, hfr⟩ := bits_cases b hb hfin
+  have hd := decode_bitsOf _ _ hex hfr
+  rw [← hbe, h] at hd
+  injection hd with _ h1 h2
+  subst h1 h2
+  rw [roundPos_bitsOf _ _ hex hfr hm, ← hbe]
+
+/-- **T1**: a value `m·2^e` with `m < 2^53` in the finite range is a fixed point of rounding: the result is a
+    finite binary64 whose decoded value `m'·2^e'` is exactly `m·2^e`. -/
+theorem roundPos_exact (m : Nat) (e : Int) (hm0 : 0 < m) (hm : m < 2 ^ 53) (he : -1074 ≤ e)
+    (hhi : e + ((m.log2 + 1 : Nat) : Int) ≤ 1024) :
+    ∃ b m' e', roundPos m e false = some b ∧ isFinite b = true ∧ decode b = .fin false m' e' ∧
+      e' ≤ e ∧ m' = m * 2 ^ (e - e').toNat := by
+  have h0 : m ≠ 0 := by omega
+  obtain ⟨h1, h2⟩ := log2_bounds m h0
+  have hL : m.log2 < 53 := (Nat.log2_lt h0).mpr hm
+  by_cases hc : -1074 ≤ e + ((m.log2 + 1 : Nat) : Int) - 53
+  · -- normal
+    obtain ⟨ex, hexd⟩ : ∃ ex : Nat, (ex : Int) = e + ((m.log2 + 1 : Nat) : Int) - 53 + 1075 :=
+      ⟨(e + ((m.log2 + 1 : Nat) : Int) - 53 + 1075).toNat, by omega⟩
+    have hex1 : 1 ≤ ex := by omega
+    have hex : ex < 2047 := by omega
+    have hp1 : 2 ^ 52 ≤ m * 2 ^ (52 - m.log2) := by
+      have : 2 ^ 52 = 2 ^ m.log2 * 2 ^ (52 - m.log2) := by rw [← Nat.pow_add]; congr 1; omega
+      rw [this]; exact Nat.mul_le_mul_right _ h1
+    have hp2 : m * 2 ^ (52 - m.log2) < 2 ^ 53 := by
+      have : 2 ^ 53 = 2 ^ (m.log2 + 1) * 2 ^ (52 - m.log2) := by rw [← Nat.pow_add]; congr 1; omega
+      rw [this]; exact Nat.mul_lt_mul_of_pos_right h2 (two_pow_pos _)
+    have hfr : m * 2 ^ (52 - m.log2) - 2 ^ 52 < 2 ^ 52 := by omega
+    have hmant : mantOf ex (m * 2 ^ (52 - m.log2) - 2 ^ 52) = m * 2 ^ (52 - m.log2) := by
+      unfold mantOf; rw [if_neg (by omega)]; omega
+    have hexp : expOf ex = e - ((52 - m.log2 : Nat) : Int) := by
+      unfold expOf; rw [if_neg (by omega)]; omega
+    refine ⟨bitsOf ex (m * 2 ^ (52 - m.log2) - 2 ^ 52), m * 2 ^ (52 - m.log2), e - ((52 - m.log2 : Nat) : Int),
+      ?_, isFinite_bitsOf _ _ hex hfr, ?_, by omega, ?_⟩
+    · have := roundPos_bitsOf _ _ hex hfr (by rw [hmant]; omega)
+      rw [hmant, hexp, roundPos_scale m (52 - m.log2) e h0] at this
+      exact this
+    · rw [decode_bitsOf _ _ hex hfr, hmant, hexp]
+    · congr 2; omega
+  · -- subnormal
+    obtain ⟨j, hj⟩ : ∃ j : Nat, (j : Int) = e + 1074 := ⟨(e + 1074).toNat, by omega⟩
+    have hp : m * 2 ^ j < 2 ^ 52 := by
+      have h3 : m * 2 ^ j < 2 ^ (m.log2 + 1) * 2 ^ j := Nat.mul_lt_mul_of_pos_right h2 (two_pow_pos _)
+      have h4 : 2 ^ (m.log2 + 1) * 2 ^ j ≤ 2 ^ 52 := by
+        rw [← Nat.pow_add]; exact Nat.pow_le_pow_right (by decide) (by omega)
+      omega
+    have hpos : m * 2 ^ j ≠ 0 := Nat.mul_ne_zero h0 (by have := two_pow_pos j; omega)
+    have hmant : mantOf 0 (m * 2 ^ j) = m * 2 ^ j := by simp [mantOf]
+    have hexp : expOf 0 = e - (j : Int) := by simp [expOf]; omega
+    refine ⟨bitsOf 0 (m * 2 ^ j), m * 2 ^ j, e - (j : Int), ?_, isFinite_bitsOf 0 _ (by omega) hp, ?_,
+      by omega, ?_⟩
+    · have := roundPos_bitsOf 0 (m * 2 ^ j) (by omega) hp (by rw [hmant]; exact hpos)
+      rw [hmant, hexp, roundPos_scale m j e h0] at this
+      exact this
+    · rw [decode_bitsOf 0 _ (by omega) hp, hmant, hexp]
+    · congr 2; omega
+
 end SJ.F64Round
